@@ -128,13 +128,14 @@ pub struct InputSet {
     pub members: usize,
     pub random: usize,
     pub sweeps: usize,
+    pub long: usize,
 }
 
 /// Build the ordinary workload for one definition.
 /// `all_bytes`: try all 256 bytes in every state (else range boundaries + samples);
 /// `cap`: maximal number of inputs (graph-directed part is subsampled deterministically).
 pub fn build(ctx: &DefCtx, rng: &mut Rng, all_bytes: bool, cap: usize) -> InputSet {
-    let mut set = InputSet { inputs: vec![], dropped: 0, graph_directed: 0, members: 0, random: 0, sweeps: 0 };
+    let mut set = InputSet { inputs: vec![], dropped: 0, graph_directed: 0, members: 0, random: 0, sweeps: 0, long: 0 };
     let alpha = alphabet(ctx);
     let utf8mode = ctx.utf8();
 
@@ -311,6 +312,30 @@ pub fn build(ctx: &DefCtx, rng: &mut Rng, all_bytes: bool, cap: usize) -> InputS
             let before = set.inputs.len();
             push_valid(ctx, x, &mut set.inputs, &mut set.dropped);
             set.sweeps += set.inputs.len() - before;
+        }
+    }
+    // I6 long inputs: many members and separators, 100..1500 bytes (chunked loops over long runs, long chains of
+    // state transitions, many items per run)
+    if !members.is_empty() {
+        for _ in 0..(cap / 400).max(6) {
+            let target = rng.range(100, 1500);
+            let mut x: Vec<u8> = vec![];
+            while x.len() < target {
+                match rng.below(4) {
+                    0 => x.extend(rand_tail(rng)),
+                    1 => {
+                        // a long run of one member
+                        let m = &members[rng.below(members.len())];
+                        for _ in 0..rng.range(2, 40) {
+                            x.extend_from_slice(m);
+                        }
+                    }
+                    _ => x.extend_from_slice(&members[rng.below(members.len())]),
+                }
+            }
+            let before = set.inputs.len();
+            push_valid(ctx, x, &mut set.inputs, &mut set.dropped);
+            set.long += set.inputs.len() - before;
         }
     }
     set.inputs.push(vec![]);
